@@ -98,6 +98,10 @@ func c10(c *ctx) {
 		{"timeout+hbdead", []string{"timeout+hbdead"}, true, 1},
 		{"hbdead+stop", []string{"hbdead-nowait", "stop"}, true, 600},
 		{"release+release", []string{"release-nowait", "release-nowait", "settle"}, false, 600},
+		// association 0 is set up by the agent itself towards a peer configured by host name
+		{"initiated+stop", []string{"stop"}, false, 600},
+		{"initiated+release", []string{"release"}, false, 600},
+		{"initiated-by-name+stop", []string{"stop"}, false, 600},
 	}
 	reps := c.pick(2, 30)
 	for _, sc := range scripts {
@@ -110,6 +114,17 @@ func c10(c *ctx) {
 					continue
 				}
 				o := sysh.Opts{ReadTimeout: sc.readTO, HB: sc.hb}
+				initiated := strings.HasPrefix(sc.name, "initiated")
+				if initiated {
+					if nAssoc == 0 {
+						continue
+					}
+					if strings.Contains(sc.name, "by-name") {
+						o.PeerNames = []string{"localhost"}
+					} else {
+						o.Peers = []string{"127.0.0.1"}
+					}
+				}
 				if sc.hb {
 					// the heartbeat dies at ~ interval + 2 x resp_timeout; with "timeout+hbdead" that is about the read timeout (1 s)
 					o.HBInterval, o.RespTimeout, o.MaxRetries = "800ms", "100ms", 1
@@ -118,6 +133,15 @@ func c10(c *ctx) {
 				if err != nil {
 					panic(err)
 				}
+				var p0 *sysh.Peer
+				if initiated {
+					// "localhost" resolves to 127.0.0.1; the port is fixed by the protocol
+					if p0, err = w.s.NewPeerAt("127.0.0.1", 8805); err != nil {
+						w.emit("life/"+sc.name+"/skipped", false, map[string]interface{}{"k": "note", "msg": "127.0.0.1:8805 is not available: " + err.Error()})
+						w.close()
+						continue
+					}
+				}
 				if !w.start() {
 					w.close()
 					return
@@ -125,7 +149,15 @@ func c10(c *ctx) {
 				w.s.Bess.TakeLog()
 				var seids [][]uint64
 				for a := 0; a < nAssoc; a++ {
-					w.assoc(a)
+					if a == 0 && initiated {
+						if !p0.AcceptAssociation(5 * time.Second) {
+							w.emit("life/"+sc.name+"/skipped", false, map[string]interface{}{"k": "note", "msg": "the agent did not ask for an association"})
+						}
+						w.peers, w.nodes = []*sysh.Peer{p0}, []string{p0.Addr}
+						time.Sleep(30 * time.Millisecond)
+					} else {
+						w.assoc(a)
+					}
 					w.peers[a].AnswerHB = true
 					var mine []uint64
 					for k := 0; k < r.Intn(3); k++ {
